@@ -67,9 +67,10 @@ termination_by _ _ cs => cs.length
 
 def reduceDims (excl : Nat → Bool) (cs : List (Core α)) : List (Core α) := reduceGo excl 0 [] cs
 
-/-- `x.sum(index)`: selected modes summed with `keepdim`, then `reduce_dims()` -/
+/-- `x.sum(index)`: selected modes summed with `keepdim`, then `reduce_dims(exclude)` where the
+    modes that were not summed are excluded from the removal -/
 def sumSel (sel : Nat → Bool) (cs : List (Core α)) : List (Core α) :=
-  reduceDims (fun _ => false) (mapSel sumModeCore sel 0 cs)
+  reduceDims (fun i => !sel i) (mapSel sumModeCore sel 0 cs)
 
 /-- Gram sweep `einsum('ab,aijm,bijn->mn', G, x_k, conj(y_k))` of `dot` / autograd `norm` -/
 def gramSweep (cj : α → α) : List (Core α) → List (Core α) → (Nat → Nat → α) → (Nat → Nat → α)
